@@ -174,6 +174,9 @@ def C04(tr):
     # quiescence
     if any(s['alloc'] is not None for s in tr.m.values()):
         out.append(V('C04', 'task_still_running', "an allocation is still active on return"))
+    bodies = [(mid, t) for mid, s in tr.m.items() for t in s['work']]
+    if bodies:
+        out.append(V('C04', 'task_still_running', f"task bodies still executing on return: {bodies[:4]}"))
     if tr.queue or sim.scheduler.observation_queue:
         out.append(V('C04', 'queue_not_empty', f"queue on return: shadow {tr.queue} impl {sim.scheduler.observation_queue}"))
     r = tr.pools()
